@@ -251,6 +251,12 @@ def e2e_cases(ctx, rng, count):
         opts.append("depth=" + str(rng.choice([20, 40, 60, 120])))
         url = f"/dash/live/{stream}/{man}" + ("?" + "&".join(opts) if opts else "")
         out.append((stream, url, now))
+        if i % 4 == 1 and stream in ("bbb", "tears", "syn1", "syn3"):
+            # the same manifest, clock and options for another stream whose tracks have the same ids and
+            # timescales but another layout: the same $Time$/$Number$ values are requested for both, so
+            # anything remembered per (track id, time) instead of per file shows up
+            other = {"bbb": "tears", "tears": "bbb", "syn1": "syn3", "syn3": "syn1"}[stream]
+            out.append((other, url.replace(f"/{stream}/", f"/{other}/", 1), now))
     return out
 
 
